@@ -31,6 +31,8 @@ mod h_big;
 mod h_builder2;
 #[cfg(kani)]
 mod h_link;
+#[cfg(kani)]
+mod h_sll;
 // pool harnesses need the verification hook of /repo (a list-based map): the whole harness crate is built with the cfg
 #[cfg(all(kani, julianschmid_etherparse_verif))]
 mod h_pool;
